@@ -34,7 +34,7 @@ def cases(tier, seed):
         out.append({"id": "norm-%d" % i, "kind": "norm", "shape": shape, "layout": ["xy", "zxy"][i % 2],
                     "scale": float(loguniform(rng, 1e-6, 1e6)), "seed": [seed, "norm", i]})
         out.append({"id": "bg-%d" % i, "kind": "bg", "shape": shape, "layout": ["zxy", "xy"][i % 2], "dark": bool(i % 3),
-                    "scale": float(loguniform(rng, 1e-3, 1e5)), "seed": [seed, "bg", i]})
+                    "scale": float(loguniform(rng, 1e-12, 1e6)), "seed": [seed, "bg", i]})
         out.append({"id": "detrend-%d" % i, "kind": "detrend", "shape": [max(3, shape[0]), max(3, shape[1])],
                     "layout": ["xy", "zxy"][i % 2], "plane": [float(rng.normal() * 10 ** rng.uniform(-3, 3)) for _ in range(3)],
                     "seed": [seed, "detrend", i]})
@@ -51,11 +51,13 @@ def cases(tier, seed):
     k = 0
     zsm = [(3, 3), (4, 5), (6, 4)] if tier == "quick" else [(a, b) for a in range(3, 8) for b in range(3, 8)]
     for (nx, ny) in zsm:
-        out.append({"id": "zero-ex-%d" % k, "kind": "zero_ex", "shape": [nx, ny], "layout": ["xy", "zxy"][k % 2], "seed": [seed, "zex", k], "cost": 6})
+        out.append({"id": "zero-ex-%d" % k, "kind": "zero_ex", "shape": [nx, ny], "layout": ["xy", "zxy"][k % 2], "seed": [seed, "zex", k], "cost": 6,
+                    "scale": [1.0, 1e-9, 1e-13, 3e4][k % 4]})
         k += 1
     for i in range(n):
         out.append({"id": "zero-r-%d" % i, "kind": "zero_r", "shape": [int(rng.integers(5, 40)), int(rng.integers(5, 40))],
-                    "layout": ["xy", "zxy"][i % 2], "ndead": int(rng.integers(1, 8)), "seed": [seed, "zr", i]})
+                    "layout": ["xy", "zxy"][i % 2], "ndead": int(rng.integers(1, 8)), "seed": [seed, "zr", i],
+                    "scale": float(loguniform(rng, 1e-15, 1e8))})
     # accumulator
     for i in range(n // 2):
         out.append({"id": "acc-%d" % i, "kind": "acc", "npush": 1 + i % 5, "what": ["scalar", "array", "image"][i % 3], "seed": [seed, "acc", i],
@@ -70,6 +72,8 @@ def cases(tier, seed):
         c = {"id": "center-%d" % i, "kind": "center", "N": N, "spacing": float(rng.uniform(0.08, 0.15)),
              "fx": float(rng.uniform(0.2, 0.8)), "fy": float(rng.uniform(0.2, 0.8)), "z": float(rng.uniform(5, 25)),
              "r": float(rng.uniform(0.3, 1.0)), "n": float(rng.uniform(1.4, 1.7)), "cost": 30}
+        if i % 2:
+            c["Ny"] = int(rng.integers(60, 161))       # non-square detector (tall or wide)
         out.append(c)
     # catalogue: the few-fringe corner of the property's box (small detector, deep particle, centre at the rim);
     # cat-0 is the recorded witness of known finding F14
@@ -410,8 +414,9 @@ def _run_center(case):
     from holopy.core.metadata import get_extents
     from vf.monitors import digest
     N, sp = case["N"], case["spacing"]
-    cx, cy = case["fx"] * N * sp, case["fy"] * N * sp
-    det = hp.detector_grid(N, sp)
+    Ny = case.get("Ny", N)
+    cx, cy = case["fx"] * N * sp, case["fy"] * Ny * sp
+    det = hp.detector_grid((N, Ny), sp)
     h = calc_holo(det, Sphere(n=case["n"], r=case["r"], center=(cx, cy, case["z"])), 1.33, 0.66, (1, 0))
     before = digest(h)
     c = np.asarray(center_find(h), dtype=float)
@@ -430,7 +435,7 @@ def _run_center(case):
     h2 = h.assign_coords(x=h.x.values + 2.5, y=h.y.values - 1.0)
     pri2 = make_center_priors(h2)
     flags["priors_follow_origin"] = bool(abs(pri2[0].mu - (pri[0].mu + 2.5)) < 1e-9 and abs(pri2[1].mu - (pri[1].mu - 1.0)) < 1e-9)
-    W = N * sp
+    W = min(N, Ny) * sp
     fres = (W / 2) ** 2 / (0.66 / 1.33 * case["z"])
     return {"resid": {"center_err_px": fnum(err.max())}, "flags": flags, "fresnel": fres, "err": [float(err[0]), float(err[1])], "const": False}
 
